@@ -75,6 +75,10 @@ func (ld *Loaded) staticScans(id string) []*FuncResult {
 			out = append(out, ld.cellFreshScan(fd))
 			continue
 		}
+		if (has || len(planFuncs) > 0 && ld.pkgInPlan(fd.Pkg)) && fd.Kind == "globals" {
+			out = append(out, ld.globalsScan(fd))
+			continue
+		}
 		if has && fd.Kind == "methods" {
 			out = append(out, ld.methodsScan(fd))
 			continue
@@ -638,4 +642,77 @@ func (ld *Loaded) withHelpers(fns []*ssa.Function) []*ssa.Function {
 		add(fn, 0)
 	}
 	return out
+}
+
+func (ld *Loaded) pkgInPlan(pkg string) bool {
+	for k := range planFuncs {
+		if strings.Contains(k, pkg+".") {
+			return true
+		}
+	}
+	return false
+}
+
+// globalsScan: "globals immutable [except ...]" - every package-level variable of the package is
+// written only by the package initialiser, and its address is not handed out elsewhere: there is
+// no mutable global state that concurrent users of the package could share.
+func (ld *Loaded) globalsScan(fd *FieldDecl) *FuncResult {
+	short := fd.Pkg
+	if i := strings.LastIndex(short, "/"); i >= 0 {
+		short = short[i+1:]
+	}
+	if short == "go-netty" {
+		short = "netty"
+	}
+	o := &Obligation{Name: short + ".globals#frame:immutable", Kind: "frame", Static: true, Props: fd.Props}
+	except := map[string]bool{}
+	f := strings.Fields(fd.Arg)
+	for i, w := range f {
+		if w == "except" {
+			for _, g := range f[i+1:] {
+				except[g] = true
+			}
+		}
+	}
+	var bad []string
+	n := 0
+	var keys []string
+	for k := range ld.fnByKey {
+		keys = append(keys, k)
+	}
+	sort.Strings(keys)
+	for _, k := range keys {
+		for _, fn := range ld.fnByKey[k] {
+			tp := typesPkgOf(fn)
+			if tp == nil || !strings.HasPrefix(tp.Path(), "github.com/go-netty/") {
+				continue
+			}
+			isInit := fn.Name() == "init" || strings.HasPrefix(fn.Name(), "init#")
+			for _, b := range fn.Blocks {
+				for _, in := range b.Instrs {
+					for _, op := range in.Operands(nil) {
+						g, ok := (*op).(*ssa.Global)
+						if !ok || g.Pkg == nil || g.Pkg.Pkg.Path() != fd.Pkg || except[g.Name()] || strings.HasPrefix(g.Name(), "init$") {
+							continue
+						}
+						n++
+						if u, isLoad := in.(*ssa.UnOp); isLoad && u.X == ssa.Value(g) {
+							continue
+						}
+						if isInit && tp.Path() == fd.Pkg {
+							continue
+						}
+						bad = append(bad, fmt.Sprintf("%s is written or its address taken in %s: %s", g.Name(), fn.RelString(tp), in))
+					}
+				}
+			}
+		}
+	}
+	sort.Strings(bad)
+	o.StaticOK = len(bad) == 0
+	o.Detail = fmt.Sprintf("package-level variables of %s are written only by the package initialiser (%d uses checked)", fd.Pkg, n)
+	if len(bad) > 0 {
+		o.Detail += "; FAILS: " + strings.Join(bad, " | ")
+	}
+	return &FuncResult{Key: "static:" + o.Name, Obls: []*Obligation{o}}
 }
